@@ -143,10 +143,10 @@ class CharSet:
         """A representative character, preferring printable ASCII letters/digits."""
         best = None
         for a, b in self.iv:
-            for lo, hi in ((48, 57), (97, 122), (65, 90), (33, 126), (32, 32)):
+            for rank, (lo, hi) in enumerate(((48, 57), (97, 122), (65, 90), (33, 126), (32, 32))):
                 x, y = max(a, lo), min(b, hi)
                 if x <= y:
-                    cand = (0 if (lo, hi) != (32, 32) else 1, x)
+                    cand = (rank, x)
                     if best is None or cand < best:
                         best = cand
                     break
